@@ -138,6 +138,27 @@ func sval(w uint8, v uint64) int64 {
 	return int64(v)
 }
 
+// constTree: t is a constant or an ite whose leaves are all constants (depth-bounded).
+func constTree(t *Term, depth int) bool {
+	if t.op == OpConst {
+		return true
+	}
+	if t.op == OpIte && depth > 0 {
+		return constTree(t.b, depth-1) && constTree(t.c, depth-1)
+	}
+	return false
+}
+
+// mapLeaves rebuilds an ite tree applying f to each constant leaf.
+func (s *Store) mapLeaves(t *Term, f func(k *Term) *Term) *Term {
+	if t.op == OpConst {
+		return f(t)
+	}
+	return s.Ite(t.a, s.mapLeaves(t.b, f), s.mapLeaves(t.c, f))
+}
+
+const liftDepth = 6
+
 func (s *Store) Not(a *Term) *Term {
 	if a.op == OpConst {
 		return s.Bool(a.k == 0)
@@ -236,6 +257,9 @@ func (s *Store) Eq(a, b *Term) *Term {
 			}
 			return s.Not(a)
 		}
+		if a.op == OpIte && a.w != 0 && constTree(a, liftDepth) {
+			return s.mapLeaves(a, func(k *Term) *Term { return s.Bool(k.k == b.k) })
+		}
 		switch a.op {
 		case OpVar:
 			if a.dom != nil && a.w == 8 && !inDom(a.dom, b.k) {
@@ -314,6 +338,12 @@ func (s *Store) Bin(op Op, a, b *Term) *Term {
 	w := a.w
 	if a.op == OpConst && b.op == OpConst {
 		return s.Const(w, foldBin(op, w, a.k, b.k))
+	}
+	if b.op == OpConst && a.op == OpIte && constTree(a, liftDepth) {
+		return s.mapLeaves(a, func(k *Term) *Term { return s.Const(w, foldBin(op, w, k.k, b.k)) })
+	}
+	if a.op == OpConst && b.op == OpIte && constTree(b, liftDepth) {
+		return s.mapLeaves(b, func(k *Term) *Term { return s.Const(w, foldBin(op, w, a.k, k.k)) })
 	}
 	switch op {
 	case OpAdd:
@@ -394,6 +424,12 @@ func (s *Store) Cmp(op Op, a, b *Term) *Term {
 	}
 	if a == b {
 		return s.Bool(op == OpUle || op == OpSle)
+	}
+	if b.op == OpConst && a.op == OpIte && constTree(a, liftDepth) {
+		return s.mapLeaves(a, func(k *Term) *Term { return s.Cmp(op, k, b) })
+	}
+	if a.op == OpConst && b.op == OpIte && constTree(b, liftDepth) {
+		return s.mapLeaves(b, func(k *Term) *Term { return s.Cmp(op, a, k) })
 	}
 	// zext(x) <u const
 	if a.op == OpZext && b.op == OpConst && a.a.w < w {
@@ -507,6 +543,9 @@ func (s *Store) Extract(a *Term, hi, lo uint8) *Term {
 	if a.op == OpConst {
 		return s.Const(nw, a.k>>lo)
 	}
+	if a.op == OpIte && constTree(a, liftDepth) {
+		return s.mapLeaves(a, func(k *Term) *Term { return s.Const(nw, k.k>>lo) })
+	}
 	if a.op == OpZext || a.op == OpSext {
 		if hi < a.a.w {
 			return s.Extract(a.a, hi, lo)
@@ -527,6 +566,9 @@ func (s *Store) Zext(a *Term, w uint8) *Term {
 	}
 	if a.op == OpConst {
 		return s.Const(w, a.k)
+	}
+	if a.op == OpIte && constTree(a, liftDepth) {
+		return s.mapLeaves(a, func(k *Term) *Term { return s.Const(w, k.k) })
 	}
 	if a.op == OpZext {
 		return s.Zext(a.a, w)
